@@ -2,7 +2,7 @@
 import copy, itertools, json
 import vlib
 from checks.c09 import vlib_corpus
-from specgen import share_spec, multi_resp_spec
+from specgen import share_spec, multi_resp_spec, share_spec_pool, SHARE_POOLS
 
 R = lambda n: {"$ref": "#/components/schemas/" + n}
 DISC = {"propertyName": "kind"}
@@ -103,8 +103,14 @@ def prepare(case):
                 raise ValueError("ill-formed site")
             if not (isinstance(sc, dict) and (len(sc.get("enum") or []) >= 2 or sc.get("properties") or len(sc.get("oneOf") or sc.get("anyOf") or []) >= 2)):
                 raise ValueError("schema outside the feature grammar")
-        specs = {"combined": share_spec(occs), "plus": share_spec(occs, extra) if extra else None, "alone": [share_spec([o]) for o in occs]}
-        return {"op": case["op"], "in": {"occs": occs, "extra": extra, "specs": specs, "opaque": ["A", "B", "C"], "mode": "client-mod", "cfg": {"all_schemas": True}}}
+        pool = i.get("pool") or "abc"
+        if pool not in SHARE_POOLS:
+            raise ValueError("unknown pool")
+        mk = (lambda os, x=None: share_spec(os, x)) if pool == "abc" else (lambda os, x=None: share_spec_pool(os, x, pool))
+        specs = {"combined": mk(occs), "plus": mk(occs, extra) if extra else None, "alone": [mk([o]) for o in occs]}
+        return {"op": case["op"], "in": {"occs": occs, "extra": extra, "specs": specs, "opaque": [k for k, v in SHARE_POOLS[pool].items() if "properties" in v],
+                                          # pool members with a `const` tag that a named discriminated union of the pool lists
+                                          "tagged_refs": [k for k, v in SHARE_POOLS[pool].items() if "const" in (v.get("properties") or {}).get("kind", {})], "mode": "client-mod", "cfg": {"all_schemas": True}}}
     if case["op"] == "share.resp":
         ops = case["in"]["ops"]
         if not ops or not all(o.get("opid") and o.get("path", "").startswith("/") and o.get("responses") for o in ops):
@@ -153,6 +159,96 @@ def share_cases(ctx):
             extra = {"name": r.choice(["Aa", "Zz", "Mm"]), "schema": r.choice(fam)}
         if not disc_mix(schemas + ([extra["schema"]] if extra else [])):
             out.append(mk_share(schemas, r.sample(tags, k), extra))
+    return out
+
+
+# ---- the SAME member name on several holders (the pre-scan derives ONE best name per value set / inline schema from
+# all the places it occurs at: the longest common suffix or prefix of `Holder` + `member`) ----
+HOLDER_SETS = [
+    ["Order", "Shipment", "Invoice", "Payment"],                                  # nothing in common: the member name alone
+    ["UserOrder", "AdminOrder", "UserInvoice", "AdminInvoice"],                  # common suffixes / prefixes among the holders
+    ["OrderCreated", "OrderUpdated", "InvoiceCreated", "InvoiceUpdated"],
+    ["H1", "H2", "H3", "H4"],
+    ["Foo", "FooBar", "FooBarBaz", "Bar"],                                       # holder + member concatenations that coincide
+]
+MEMBER_NAMES = ["status", "state", "kind", "order_status", "bar_baz", "baz", "type"]
+VALUE_SETS = [["placed", "shipped"], ["open", "paid"], ["draft", "final", "void"], ["placed", "shipped", "lost"]]
+INLINE_OBJS = [
+    {"type": "object", "properties": {"code": {"type": "string"}}},
+    {"type": "object", "properties": {"code": {"type": "integer"}}},
+    {"type": "object", "required": ["code"], "properties": {"code": {"type": "string"}, "at": {"type": "string"}}},
+]
+
+
+def same_member_cases(ctx):
+    """2-4 holders carry a member of the same (or a concatenation-equivalent) name; the members' inline schemas are
+    partitioned into 1-3 different value sets (enums) or shapes (objects).  Judge as everywhere: each site's wire
+    shape equals its stand-alone one; model: sites share a type iff their schemas have one identity token."""
+    r = ctx.rng
+    out = []
+
+    def one(holders, members, groups, fam, extra=None, kind="prop"):
+        occs = []
+        for h, m, g in zip(holders, members, groups):
+            sch = {"type": "string", "enum": list(VALUE_SETS[g])} if fam == "enum" else copy.deepcopy(INLINE_OBJS[g % len(INLINE_OBJS)])
+            occs.append({"site": {"kind": kind, "holder": h, "prop": m} if kind == "prop" else {"kind": "items", "holder": h, "prop": m, "single": m}, "schema": sch})
+        return {"op": "share.sites", "in": {"occs": occs, "extra": extra}}
+
+    # the systematic core: `status` on Order/Shipment vs Invoice/Payment, every partition of 2..4 holders into value sets
+    parts = {2: [[0, 0], [0, 1]], 3: [[0, 0, 0], [0, 0, 1], [0, 1, 0], [0, 1, 1], [0, 1, 2]],
+             4: [[0, 0, 1, 1], [0, 1, 0, 1], [0, 1, 1, 0], [0, 0, 0, 1], [0, 1, 1, 1], [0, 0, 1, 2], [0, 1, 2, 0], [0, 0, 0, 0]]}
+    core = []
+    for hs in HOLDER_SETS:
+        for n, ps in parts.items():
+            for g in ps:
+                for fam in ("enum", "object"):
+                    for m in ("status", "kind"):
+                        core.append(one(hs[:n], [m] * n, g, fam))
+                        core.append(one(list(reversed(hs[:n])), [m] * n, g, fam))
+    out += r.sample(core, 60) if ctx.quick else core
+    # the document grows: the first two holders alone, then the others as "unrelated" additions is covered by the
+    # stand-alone comparison; an unrelated NAMED schema that wants the same name is added explicitly
+    for _ in range(60 if ctx.quick else 1500):
+        hs = r.choice(HOLDER_SETS)
+        n = r.randint(2, 4)
+        holders = r.sample(hs, n)
+        base = r.choice(MEMBER_NAMES)
+        members = [base if r.random() < 0.8 else r.choice(MEMBER_NAMES) for _ in range(n)]
+        groups = [r.randrange(3) for _ in range(n)]
+        if r.random() < 0.3:
+            groups[-1] = 3                      # a superset value set
+        fam = "enum" if r.random() < 0.7 else "object"
+        extra = None
+        if r.random() < 0.3:
+            nm = r.choice(["Status", "Kind", "State", "OrderStatus", "Zz"])
+            extra = {"name": nm, "schema": {"type": "string", "enum": list(r.choice(VALUE_SETS))} if r.random() < 0.7 else copy.deepcopy(r.choice(INLINE_OBJS))}
+        out.append(one(holders, members, groups, fam, extra))
+    return out
+
+
+def disc_cases(ctx):
+    """unions with a mapping-LESS discriminator (implicit mapping from the members' `const` tags -> tagged enum) next
+    to plain unions over the same `$ref`s (untagged enum), in both generation orders (members of a holder are
+    generated in name order), same / different holders, members / array items, oneOf / anyOf"""
+    r = ctx.rng
+    RA = lambda n: {"$ref": "#/components/schemas/" + n}
+    out = []
+    sites_pairs = [(("Holder", "loose"), ("Holder", "tagged")), (("Keeper", "first"), ("Keeper", "second")), (("Keeper", "second"), ("Keeper", "first")),
+                   (("Holder", "a"), ("Keeper", "a")), (("Keeper", "a"), ("Holder", "a")), (("Holder", "list"), ("Holder", "one")), (("Holder", "one"), ("Holder", "list"))]
+    allc = []
+    for refs in (["Cat", "Dog"], ["Cat", "Bird"], ["Dog", "Bird"], ["Dog", "Cat"]):
+        for kw in ("oneOf", "anyOf"):
+            plain = {kw: [RA(x) for x in refs]}
+            tagged = {kw: [RA(x) for x in refs], "discriminator": {"propertyName": "kind"}}
+            for (h1, p1), (h2, p2) in sites_pairs:
+                for first, second in ((plain, tagged), (tagged, plain), (tagged, tagged), (plain, plain)):
+                    occs = [{"site": {"kind": "items" if p == "list" else "prop", "holder": h, "prop": p, **({"single": "list"} if p == "list" else {})}, "schema": copy.deepcopy(sc)}
+                            for (h, p), sc in (((h1, p1), first), ((h2, p2), second))]
+                    allc.append({"op": "share.sites", "in": {"occs": occs, "extra": None, "pool": "animals"}})
+                    if first is not second:
+                        # the document grows by an unrelated named union over the same refs, with / without discriminator
+                        allc.append({"op": "share.sites", "in": {"occs": occs[:1], "extra": {"name": r.choice(["Aa", "Zz"]), "schema": copy.deepcopy(second)}, "pool": "animals"}})
+    out += r.sample(allc, 40) if ctx.quick else allc
     return out
 
 
@@ -345,7 +441,7 @@ def run(ctx):
             ctx.leanchecker("Oas3Model.Props.C13")
     ctx.prepare = prepare
     if driver_ok and ctx.build_harness(["k_cache"]):
-        allc = vlib_corpus(ctx) + kernel_cases(ctx) + share_cases(ctx) + resp_cases(ctx)
+        allc = vlib_corpus(ctx) + kernel_cases(ctx) + share_cases(ctx) + resp_cases(ctx) + same_member_cases(ctx) + disc_cases(ctx)
         B = 400
         for i in range(0, len(allc), B):
             ctx.classify(ctx.evaluate(allc[i:i + B]), tie="K+E")
@@ -358,5 +454,5 @@ def run(ctx):
             "serialisation of the canonical tree is injective (RFC 8785 text); keys are compared by code point (identical to UTF-16 order below U+D800)",
             "wire behaviour of an emitted type is a function of its name-free expansion (serde attributes, variants, renames, field types, custom Serialize/Deserialize bodies) computed by harness/src/k_cache.rs from syn facts; docs, derives other than serde's, Rust identifiers and validator attributes are not wire behaviour",
             "status/media categorisation of responses reuses the C04 model (Model/Responses.lean)"],
-        rule="K: canonical strings of near-equal schema groups (3 families x facets + random mutations: member order, required/enum/type order, descriptions with escapes, integers around +-2^53, nested defaults) compared byte-for-byte with CanonicalSchema::from_schema and every equal pair judged; enum cache keys of enum/const/oneOf/anyOf groups; union fingerprints of random component maps; random SharedSchemaCache API scripts.  E: every ordered pair (incl. identical) of each family (15 enums, 12 objects, 14 unions; each differs from its base in one facet) at 13 use-site combinations (named/property/array-items, same or different holder, both name orders) [all: thorough, 500 sampled: quick]; every (occurrence, unrelated extra schema) pair of a family at 3 site kinds x 2 extra names; random triples/quadruples; every pair of 14 near-equal response sets on two operations; each case = one combined generator run + one stand-alone run per occurrence (+ one with the extra schema), in-process from /repo's sources; judged: wire expansion of every use site identical to its stand-alone expansion; model = predicted sharing pattern; non-trivial = some sharing predicted/observed or equal keys; distinct by input hash",
+        rule="K: canonical strings of near-equal schema groups (3 families x facets + random mutations: member order, required/enum/type order, descriptions with escapes, integers around +-2^53, nested defaults) compared byte-for-byte with CanonicalSchema::from_schema and every equal pair judged; enum cache keys of enum/const/oneOf/anyOf groups; union fingerprints of random component maps; random SharedSchemaCache API scripts.  E: every ordered pair (incl. identical) of each family (15 enums, 12 objects, 14 unions; each differs from its base in one facet) at 13 use-site combinations (named/property/array-items, same or different holder, both name orders) [all: thorough, 500 sampled: quick]; every (occurrence, unrelated extra schema) pair of a family at 3 site kinds x 2 extra names; random triples/quadruples; the SAME member name (status / kind / concatenations that coincide) on 2-4 holders (4 holder-name families with common prefixes / suffixes) whose inline enums or objects are partitioned into 1-3 different value sets / shapes, every partition, both holder orders, optionally with a named schema that wants the derived name; unions with a mapping-less discriminator next to plain unions over the same refs of a pool with `const` tags, both generation orders, same / other holder, member / array item, oneOf / anyOf, and with the other form added as an unrelated named schema; every pair of 14 near-equal response sets on two operations; each case = one combined generator run + one stand-alone run per occurrence (+ one with the extra schema), in-process from /repo's sources; judged: wire expansion of every use site identical to its stand-alone expansion; model = predicted sharing pattern; non-trivial = some sharing predicted/observed or equal keys; distinct by input hash",
         assumptions=["enum values are strings, integers, booleans or null (no floats)", "schema member names are below U+D800", "component and property names used by the E cases are already valid Rust identifiers"])
